@@ -89,7 +89,7 @@ func (d *SimDisk) Get(bucket, object string) ([]byte, bool) {
 
 type notExist struct{ name string }
 
-func (e *notExist) Error() string { return "simdisk: object " + e.name + " does not exist" }
+func (e *notExist) Error() string   { return "simdisk: object " + e.name + " does not exist" }
 func (e *notExist) Is(t error) bool { return t == fs.ErrNotExist }
 
 // Reader implements storagei.Client.
